@@ -96,6 +96,42 @@ pub fn check_dyn(c: &Case, st: &mut Stats) -> CheckResult {
     Ok(())
 }
 
+/// A custom-width sample obtained through `From<backing integer>` from a value outside the range (which wraps into range)
+/// must convert exactly like the same sample obtained through `new`.
+#[derive(Clone, Debug, Serialize, Deserialize)]
+pub struct WrappedCase {
+    pub kind: Kind,
+    pub raw: i128,
+    /// the backing value handed to `From` is raw + periods * 2^bits
+    pub periods: i8,
+}
+
+pub fn check_wrapped(c: &WrappedCase, st: &mut Stats) -> CheckResult {
+    use dasp_sample::Sample;
+    st.nt(true);
+    macro_rules! one {
+        ($T:ty, $rep:ty) => {
+            if c.kind == <$T as Fmt>::KIND {
+                let x = c.raw + ((c.periods as i128) << c.kind.bits());
+                ensure!(c.kind.in_range_raw(c.raw) && x >= <$rep>::MIN as i128 && x <= <$rep>::MAX as i128, "bad case: backing value does not fit");
+                let a = <$T>::from(x as $rep);
+                let b = <$T>::new(c.raw as $rep).ok_or("bad case: raw out of range")?;
+                let what = format!("{}::from({}) (= {} + {} x 2^{})", c.kind.name(), x, c.raw, c.periods, c.kind.bits());
+                ensure!(a.to_sample::<f64>().to_bits() == b.to_sample::<f64>().to_bits(), "{} converts to f64 {}, the in-range sample {} converts to {}", what, a.to_sample::<f64>(), c.raw, b.to_sample::<f64>());
+                ensure!(a.to_sample::<f32>().to_bits() == b.to_sample::<f32>().to_bits(), "{} converts to f32 {}, the in-range sample converts to {}", what, a.to_sample::<f32>(), b.to_sample::<f32>());
+                ensure!(a.to_sample::<f64>() >= -1.0 && a.to_sample::<f64>() < 1.0, "{} converts to f64 {} outside [-1, 1)", what, a.to_sample::<f64>());
+                ensure!(a.to_sample::<u64>() == b.to_sample::<u64>() && a.to_sample::<i16>() == b.to_sample::<i16>() && a.to_sample::<u8>() == b.to_sample::<u8>(), "{} converts to u64/i16/u8 differently from the in-range sample {}", what, c.raw);
+                return Ok(());
+            }
+        };
+    }
+    one!(I24, i32);
+    one!(U24, i32);
+    one!(I48, i64);
+    one!(U48, i64);
+    Err("bad case: not a custom-width format".into())
+}
+
 fn case_json(src: Kind, dst: Kind, raw: i128) -> Value {
     serde_json::to_value(Case { src, dst, raw }).unwrap()
 }
@@ -151,17 +187,19 @@ where
     (0..n.div_ceil(chunk))
         .into_par_iter()
         .map(|c| {
-            let mut b = Bulk::default();
-            for i in c * chunk..((c + 1) * chunk).min(n) {
-                let raw = raw_of(i);
-                if let Err((dst, m)) = check_int_to_floats::<A>(raw) {
-                    b.set_fail(case_json(A::KIND, dst, raw), m);
-                    break;
+            vp_core::pan::two_pass(|slow| {
+                let mut b = Bulk::default();
+                for i in c * chunk..((c + 1) * chunk).min(n) {
+                    let raw = raw_of(i);
+                    if let Err((dst, m)) = vp_core::guard!(slow, check_int_to_floats::<A>(raw), |p| (Kind::F32, p)) {
+                        b.set_fail(case_json(A::KIND, dst, raw), m);
+                        break;
+                    }
+                    b.evals += 2;
+                    b.nontrivial += 2 * (raw != lo && raw != hi && raw != eq) as u64;
                 }
-                b.evals += 2;
-                b.nontrivial += 2 * (raw != lo && raw != hi && raw != eq) as u64;
-            }
-            b
+                b
+            })
         })
         .reduce(Bulk::default, Bulk::merge)
 }
@@ -206,6 +244,7 @@ where
     (0..n.div_ceil(chunk))
         .into_par_iter()
         .map(|c| {
+            vp_core::pan::two_pass(|slow| {
             let mut b = Bulk::default();
             for j in c * chunk..((c + 1) * chunk).min(n) {
                 // one pattern per stride window, at a seed-derived offset (stride 1 = all patterns)
@@ -213,7 +252,7 @@ where
                 let i = (j * stride + off).min(F32_DOMAIN - 1);
                 let bits = f32_pattern(i);
                 let x = f32::from_bits(bits);
-                match check_f32_to_int::<B>(x) {
+                match vp_core::guard!(slow, check_f32_to_int::<B>(x), |p| p) {
                     Ok(nt) => {
                         b.evals += 1;
                         b.nontrivial += nt as u64;
@@ -225,6 +264,7 @@ where
                 }
             }
             b
+            })
         })
         .reduce(Bulk::default, Bulk::merge)
 }
@@ -238,12 +278,13 @@ fn f32_to_f64_bulk(stride: u64, seed: u64) -> Bulk {
     (0..n.div_ceil(chunk))
         .into_par_iter()
         .map(|c| {
+            vp_core::pan::two_pass(|slow| {
             let mut b = Bulk::default();
             for j in c * chunk..((c + 1) * chunk).min(n) {
                 let off = if stride == 1 { 0 } else { splitmix(seed ^ j) % stride };
                 let bits = (j * stride + off) as u32;
                 let x = f32::from_bits(bits);
-                let got = match conv3::<f32, f64>(x) {
+                let got = match vp_core::guard!(slow, conv3::<f32, f64>(x), |p| p) {
                     Ok(g) => g,
                     Err(e) => {
                         b.set_fail(case_json(Kind::F32, Kind::F64, bits as i128), e);
@@ -260,6 +301,7 @@ fn f32_to_f64_bulk(stride: u64, seed: u64) -> Bulk {
                 b.nontrivial += (x != 0.0 && x != -1.0) as u64;
             }
             b
+            })
         })
         .reduce(Bulk::default, Bulk::merge)
 }
@@ -458,6 +500,17 @@ pub fn run(ctx: &mut Ctx) {
         bc.push(Case { src: Kind::F64, dst: d, raw: (-1.0f64).to_bits() as i128 });
     }
     ctx.enumerate("float->int/boundaries", true, bc.into_iter(), check_dyn);
+
+    // (d3) custom-width samples that came into being through From<backing integer> with an out-of-range value
+    let mut wc = Vec::new();
+    for &k in INT_KINDS.iter().filter(|k| k.bits() == 24 || k.bits() == 48) {
+        for r in boundary_raws(k) {
+            for periods in [-3i8, -2, -1, 1, 2, 3] {
+                wc.push(WrappedCase { kind: k, raw: r, periods });
+            }
+        }
+    }
+    ctx.enumerate("custom-width/from-backing-integer", true, wc.into_iter(), check_wrapped);
 
     // (e) f64 -> int: random domain values
     let strat = (f64_domain_bits(), 0..INT_KINDS.len()).prop_map(|(b, d)| Case { src: Kind::F64, dst: INT_KINDS[d], raw: b as i128 });
